@@ -9,8 +9,7 @@ from . import shared_gen as G
 from . import c13_progress
 
 
-def ws(s):
-    return re.sub(r'\s+', ' ', s)
+from ..pyfront import ws  # noqa: E402,F401  (whitespace-collapsed, rename/normal-form tolerant `in`)
 
 
 def run(ctx, L, tier):
